@@ -98,7 +98,11 @@ CLAIM = ("Every generated da.store call ran on the real dask with monitored targ
          "reproduced values, dtype and the chunks along the stacking axis; held = no deviation on the executions observed.")
 LEVEL_NOTE = "trusts NumPy and the harness' MonitoredTarget; real sync and threaded schedulers"
 TECHNIQUE = "runtime monitoring: write-history monitor on store targets (exactly-once, region, lock overlap) and round-trip differential"
-PENDING = {}
+PENDING = {
+    "npy_stack:negative-axis:chunks-along-axis": "to_npy_stack(axis=-1) merges the chunks of every axis (fixes_ready/C29_01)",
+    "store:return_stored&load_stored=True&compute=True:returned-arrays": "store(return_stored=True, load_stored=True, compute=True) "
+    "indexes the already loaded blocks once more (fixes_ready/C29_02)",
+}
 
 _CLOCK = itertools.count()
 SENTINEL = {"b": None, "i": -99, "u": 250, "f": -777.0, "c": -777.0 + 0j, "M": np.datetime64(12345, "ns"), "m": np.timedelta64(12345, "ns")}
